@@ -13,7 +13,7 @@ RULE = ("configurations: matrix sizes n=2..5 x batch shapes (),(1,),(3,),(63,),(
         "(regular, singular, rank-deficient), polynomials of degree 1-3 built from chosen roots (simple, double, triple, complex pairs, any "
         "leading coefficient, leading zeros), vector pairs on {-2..2}^n and random with every axis form; plus every kernel call made by the "
         "repository's tests. Each judged batch position is compared with exact rational det/adjugate/rank; non-trivial = matrix or vector "
-        "with at least two entries not in {0,1,-1}; distinct by operand digest. A raising is_multiple call is judged for numeric finite arrays that broadcast and a valid axis (axis 0, -2, middle axes and tuples of axes are part of the workload). roots on integer cubics given by their coefficients, among them nearly depressed ones (3ac - b^2 small against b^2).")
+        "with at least two entries not in {0,1,-1}; distinct by operand digest. A raising is_multiple call is judged for numeric finite arrays that broadcast and a valid axis (axis 0, -2, middle axes and tuples of axes are part of the workload, also with a first operand of fewer dimensions than the second and negative axes as int / tuple / list). roots on integer cubics given by their coefficients, among them nearly depressed ones (3ac - b^2 small against b^2).")
 SHARDS = (8, 16)
 REQUIRED = ["det", "adjugate", "inv", "null_space", "orth", "roots", "is_multiple", "hat_matrix", "matmul", "outer"]
 ASSUMPTIONS = ["Fraction arithmetic exact", "numpy.roots / einsum used as independent references are correct", "LAPACK singular-matrix behaviour not judged",
@@ -711,6 +711,15 @@ def g_multiple_random(ctx, rng, i):
             call_()
         except Exception:
             pass  # judged by the monitor
+    # an operand with fewer dimensions than the other (one vector / matrix against a batch), negative axes as int, tuple and list, both orders
+    if len(shape) >= 2:
+        lo = a[(0,) * int(rng.integers(1, len(shape)))]
+        for neg in ([-1, (-1,), [-1]] + ([(-2, -1), [-1, -2]] if lo.ndim >= 2 else [])):
+            for x, y in ((lo, b), (b, lo)):
+                try:
+                    u.is_multiple(x, y, axis=neg)
+                except Exception:
+                    pass  # judged by the monitor
 
 
 def g_hat_mat(ctx, rng, i):
